@@ -538,6 +538,11 @@ def intoBytes (s : State) (arenaShrinks : Bool) : Bytes :=
   | .ok () s' => s'.bytes
   | _ => s.bytes
 
+/-- `impl Clone for BumpString` (bump_string.rs l.2151): `allocate_slice::<u8>(len)`, copy `len`
+    bytes, `from_raw_parts(slice, len)` — a NEW allocation of exactly `len` bytes: capacity = len.
+    The original is not touched. -/
+def cloneStr (s : State) : State := { buf := s.bytes, len := s.len }
+
 /-! ## checked constructors -/
 
 /-- `BumpBox<str>::from_utf8` (bump_box.rs l.~521; `FixedBumpString::from_utf8`,
